@@ -24,6 +24,7 @@ RULE = (
     "Non-trivial: child has >= 2 gates with a connected input and a connected output, and the history "
     "has >= 2 steps or a nested blackbox. Distinct by digest."
 )
+RULE += " Added after seeded-change rounds 4-5: instances named <inst>.<x> while <inst> awaits its fill; parent nets named like nodes / nested pins of the spliced copy (the call must raise ValueError and leave the parent unchanged); ignore_pins strings containing another pin's name."
 ASSUMPTIONS = [
     "reference simulator cgv.refsim",
     "child inputs and outputs are disjoint (a BlackBox cannot have one pin in both sets)",
